@@ -102,6 +102,8 @@ func enc(v reflect.Value) any {
 		return v.Bool()
 	case t.Kind() == reflect.Int || t.Kind() == reflect.Int64:
 		return int(v.Int())
+	case t.Kind() == reflect.Uint64 || t.Kind() == reflect.Uint32 || t.Kind() == reflect.Uint8 || t.Kind() == reflect.Uint:
+		return digits(new(big.Int).SetUint64(v.Uint()))
 	}
 	fatal("enc: unsupported type %s", t)
 	return nil
